@@ -333,6 +333,8 @@ class Evaluator:
                     return (kind, xs[0][1])
                 if xs[0][0] == "comp":
                     return ("comp", kind) + xs[0][2:]
+                if xs[0][0] != "star":
+                    return (kind, (("star", xs[0]),))       # an open sequence copied from xs[0]
             if q in ("builtins.tuple", "builtins.list") and not xs:
                 return (q.split(".")[1], ())
             if q == "builtins.enumerate" and len(xs) == 1 and plain_seq(xs[0]):
